@@ -92,7 +92,9 @@ func (t *TypeAliasType) Equals(o interface{}, g px.Guard) bool {
 		}
 		tr := t.resolvedType
 		otr := ot.resolvedType
-		return tr.Equals(otr, g)
+		r := tr.Equals(otr, g)
+		g.Done(t, ot)
+		return r
 	}
 	return false
 }
